@@ -26,7 +26,11 @@ Definition event_ok (c : case) (k : nat) (e : event) (at_ : nat) : bool :=
                                              (ep_msgs (fst pa))))
                  (combine (c_out c) (c_out_at c))
   | EvDropPart cid pid _ =>
-      forallb (fun spch => fed_by ls cid spch at_ (fun m => mkind_eqb (m_kind m) KDropPart && Z.eqb (m_part m) pid)) (shards_of ls cid)
+      (* every shard has read the partition's drop message, or the catalog listed the partition as dropped when it was registered
+         (then every shard handler generates the message itself) *)
+      (forallb (fun spch => fed_by ls cid spch at_ (fun m => mkind_eqb (m_kind m) KDropPart && Z.eqb (m_part m) pid)) (shards_of ls cid)
+       || existsb (fun il => Nat.leb (fst il) at_ && match snd il with AddPart c' p' _ _ true => Z.eqb c' cid && Z.eqb p' pid | _ => false end)
+                  (combine (seq 0 (List.length ls)) ls))
       && negb (match shards_of ls cid with [] => true | _ => false end)
       && Nat.eqb (List.length (filter (fun e' => match e' with EvDropPart c' p' _ => Z.eqb c' cid && Z.eqb p' pid | _ => false end) (c_events c))) 1
       (* nothing for the partition afterwards: no message fed for it after the event is emitted *)
@@ -61,7 +65,7 @@ Definition must_drop_part (ls : list label) (cid pid : Z) (pname : string) : boo
                             | _ => true end) (idx_labels ls)
       (* registered after the start, before every drop message of the partition *)
       && existsb (fun il => match snd il with
-                            | AddPart c' p' _ _ =>
+                            | AddPart c' p' _ _ _ =>
                                 Z.eqb c' cid && Z.eqb p' pid && Nat.ltb i0 (fst il)
                                 && forallb (fun jl => match snd jl with
                                                       | Feed c'' _ _ p _ => negb (Z.eqb c'' cid) || negb (existsb (fun m => mkind_eqb (m_kind m) KDropPart && Z.eqb (m_part m) pid) (p_msgs p))
@@ -76,7 +80,7 @@ Definition must_drop_part (ls : list label) (cid pid : Z) (pname : string) : boo
       && negb (match ci_src ci with [] => true | _ => false end)
   end.
 Definition drop_candidates (ls : list label) : list (Z * Z * string) :=
-  flat_map (fun l => match l with AddPart c p n _ => [(c, p, n)] | _ => [] end) ls.
+  flat_map (fun l => match l with AddPart c p n _ _ => [(c, p, n)] | _ => [] end) ls.
 Definition requests_come (c : case) : bool :=
   forallb (fun cpn => let '(cid, pid, pname) := cpn in
                       negb (must_drop_part (c_labels c) cid pid pname)
